@@ -76,6 +76,66 @@ def step (line : String) : String :=
     let alpha := ",".intercalate ((List.range n).map fun k => floatTok (al k))
     let bv := if b then floatTok (computeBias s (fun c => Float.ofNat c)) else "0@0"
     s!"acc={if acc then 1 else 0} it={it} alpha=[{alpha}] b={bv}"
+  | "csvm2" :: bias :: shrink :: _pre :: _cache :: _weighted :: Cn :: Cp :: eps :: maxit :: warmit :: warmfac :: nT :: dT :: rest =>
+    -- one C / class-specific C, per-example weights, cold or warm start (precompute/cache do not exist in the model)
+    let n := nT.toNat!; let d := dT.toNat!
+    let a := rest.toArray
+    if a.size != n * d + 2 * n then "bad-op" else
+    let x := fun i k => tokFloat (a.getD (i * d + k) "0@0")
+    let y := fun i => a.getD (n * d + i) "0" == "1"
+    let warr := Array.ofFn (n := n) fun i => tokFloat (a.getD (n * d + n + i.val) "0@0")
+    let w := fun i => warr.getD i 0.0
+    let Karr := Array.ofFn (n := n * n) fun p =>
+      (List.range d).foldl (fun acc k => acc + x (p.val / n) k * x (p.val % n) k) 0.0
+    let K := fun i j => Karr.getD (i * n + j) 0.0
+    let b := bias == "1"
+    let strategy := if b then 1 else 2
+    let cn := tokFloat Cn; let cp := tokFloat Cp; let fac := tokFloat warmfac
+    let wit := warmit.toNat!
+    let sStart :=
+      if wit == 0 then compact (csvmInit2 n K y cn cp w b (shrink == "1")) else
+      let s1 := (solveLoop strategy (tokFloat eps) wit (compact (csvmInit2 n K y (cn * fac) (cp * fac) w b (shrink == "1"))) 0 0).1
+      let a1arr := Array.ofFn (n := n) fun i => unpermutedAlpha s1 0.0 i.val
+      let a1 := fun i => a1arr.getD i 0.0
+      let s0 := compact (csvmInit2 n K y cn cp w b (shrink == "1"))
+      let v := Array.ofFn (n := n) fun i => warmStartVector s0 a1 b i.val
+      compact (s0.setInitialSolution (fun i => v.getD i 0.0))
+    let (s, acc, it) := solveLoop strategy (tokFloat eps) maxit.toNat! sStart 0 0
+    let al := unpermutedAlpha s 0.0
+    let alpha := ",".intercalate ((List.range n).map fun k => floatTok (al k))
+    let bv := if b then floatTok (computeBias s (fun c => Float.ofNat c)) else "0@0"
+    s!"acc={if acc then 1 else 0} it={it} alpha=[{alpha}] b={bv}"
+  | "esvr" :: shrink :: C :: tube :: eps :: maxit :: nT :: dT :: rest =>
+    -- epsilon-regression
+    let n := nT.toNat!; let d := dT.toNat!
+    let a := rest.toArray
+    if a.size != n * d + n then "bad-op" else
+    let x := fun i k => tokFloat (a.getD (i * d + k) "0@0")
+    let y := fun i => tokFloat (a.getD (n * d + i) "0@0")
+    let Karr := Array.ofFn (n := n * n) fun p =>
+      (List.range d).foldl (fun acc k => acc + x (p.val / n) k * x (p.val % n) k) 0.0
+    let K := fun i j => Karr.getD (i * n + j) 0.0
+    let s0 := compact (epsInit n K y (tokFloat C) (tokFloat tube) (shrink == "1"))
+    let (s, acc, it) := solveLoop 1 (tokFloat eps) maxit.toNat! s0 0 0
+    let al := epsCoefficients n s 0.0
+    let alpha := ",".intercalate ((List.range n).map fun k => floatTok (al k))
+    let bv := floatTok (epsOffset s (fun c => Float.ofNat c))
+    s!"acc={if acc then 1 else 0} it={it} alpha=[{alpha}] b={bv}"
+  | "ocsvm" :: shrink :: nu :: eps :: maxit :: nT :: dT :: rest =>
+    let n := nT.toNat!; let d := dT.toNat!
+    let a := rest.toArray
+    if a.size != n * d then "bad-op" else
+    let x := fun i k => tokFloat (a.getD (i * d + k) "0@0")
+    let Karr := Array.ofFn (n := n * n) fun p =>
+      (List.range d).foldl (fun acc k => acc + x (p.val / n) k * x (p.val % n) k) 0.0
+    let K := fun i j => Karr.getD (i * n + j) 0.0
+    let nuF := tokFloat nu
+    let s0 := compact (oneClassInit n K nuF (Float.ofNat n) (shrink == "1"))
+    let (s, acc, it) := solveLoop 1 (tokFloat eps) maxit.toNat! s0 0 0
+    let al := unpermutedAlpha s 0.0
+    let alpha := ",".intercalate ((List.range n).map fun k => floatTok (al k))
+    let bv := floatTok (oneClassOffset s (1.0 / (nuF * Float.ofNat n)) (fun c => Float.ofNat c))
+    s!"acc={if acc then 1 else 0} it={it} alpha=[{alpha}] b={bv}"
   | [] => ""
   | _ => "bad-op"
 
